@@ -589,3 +589,41 @@ Lemma ex_poisoned_blocks_store :
   run_store T [] [SUpdate ex_poisoned; SGet (id_string (machine_id T ex_poisoned)); SUpdate (ex_machine 7); SList]
   = [RUpdate true; RGet GErr; RUpdate false; RList None].
 Proof. vm_compute. reflexivity. Qed.
+
+(* ---------- last_message is never assigned anywhere in the non-test sources ---------- *)
+Lemma gen_last_message_never_written : last_message_writes = [].
+Proof. reflexivity. Qed.
+
+(* ---------- what RecoverSwaps / Recover dispatch on comes back unchanged ---------- *)
+Definition top_field (name : string) (v : gval) : option gval :=
+  match T, v with
+  | TStruct _ fs, VStruct vs =>
+      match field_of name fs vs with Some (_, _, x) => Some x | None => None end
+  | _, _ => None
+  end.
+
+Lemma wf_fields_length fs vs : wf_fields fs vs = true -> List.length vs = List.length fs.
+Proof.
+  revert vs. induction fs as [|[m t] r IH]; intros [|w wr] H; try discriminate; [reflexivity|].
+  simpl in *. apply andb_true_iff in H. destruct H as [_ H]. f_equal. now apply IH.
+Qed.
+
+Lemma recover_inputs_kept m : wf T m = true ->
+  exists r, decode T (enc T m) = Some r /\
+    machine_id T r = machine_id T m /\
+    top_field "Type" r = top_field "Type" m /\ top_field "Role" r = top_field "Role" m /\
+    top_field "Current" r = top_field "Current" m /\ top_field "Previous" r = top_field "Previous" m.
+Proof.
+  intros Hw. exists (view T m). split; [now apply record_roundtrip|].
+  destruct m as [| | | | |vs| | |]; try discriminate.
+  unfold T in *. unfold swap_machine_ty in *.
+  rewrite wf_struct in Hw. rewrite view_struct.
+  pose proof (wf_fields_length _ _ Hw) as Hlen. cbn [List.length] in Hlen.
+  do 13 (destruct vs as [|? vs]; [discriminate Hlen|]).
+  destruct vs; [|discriminate Hlen]. clear Hlen.
+  clear Hw.
+  unfold machine_id, top_field, T, swap_machine_ty.
+  cbn [view_fields field_of f_go String.eqb Ascii.eqb Bool.eqb active f_exported f_skip f_omit andb negb].
+  repeat split.
+  destruct g as [| | | |[[]|]| | | |]; reflexivity.
+Qed.
